@@ -24,6 +24,8 @@ def live_step(ro, msg_xml, history, as_bytes=False):
     ev = drive.StepEval()
     before = str(ro)
     ev.case = {'history': list(history) + [msg_xml], 'as_bytes': as_bytes}
+    if drive.DEBUG_LOGGING:
+        ev.case['logging'] = 'debug'
     ev.msg = model.Msg(msg_xml)
     ev.state = xmlcmp.state_of(ET.fromstring(before))
     ev.ex = model.expect(ev.state, ev.msg)
@@ -49,6 +51,9 @@ def replay_history(hist, as_bytes=False):
 def rejudge_history(case, modname):
     mod = drive._mod(modname)
     fails = []
+    if case.get('logging') == 'debug' and not drive.DEBUG_LOGGING:
+        with drive.debug_logging():
+            return rejudge_history(case, modname)
     for ev in replay_history(case['history'], case.get('as_bytes', False)):
         fails += mod.judge(ev)
     return fails
@@ -66,7 +71,7 @@ def shrink_history(case, still_fails):
             if len(trial) < 2:
                 continue
             try:
-                ok = still_fails({'history': trial, 'as_bytes': case.get('as_bytes', False)})
+                ok = still_fails(dict(case, history=trial))
             except Exception:
                 ok = False
             if ok:
@@ -78,17 +83,19 @@ def shrink_history(case, still_fails):
     # defective tree can reach states that are not valid inputs for the correct one.
     import os
     if os.environ.get('VERIF_KEEP_HISTORY'):
-        return {'history': hist, 'as_bytes': case.get('as_bytes', False)}
+        return dict(case, history=hist)
     try:
         ro = RunningOrder.from_string(hist[0])
         for msg_xml in hist[1:-1]:
             step.run_step(None, msg_xml, ro_obj=ro)
         single = {'ro_xml': str(ro), 'msg_xml': hist[-1]}
+        if case.get('logging'):
+            single['logging'] = case['logging']
         if still_fails(single):
             return single
     except Exception:
         pass
-    return {'history': hist, 'as_bytes': case.get('as_bytes', False)}
+    return dict(case, history=hist)
 
 
 def make_machine(mod, col, kinds=None, faults='some', rich=True, degenerate=True,
@@ -152,6 +159,7 @@ def run_machine(machine, runs, steps, seed):
                           suppress_health_check=list(HealthCheck)))
 
 
+@drive.with_logging_config
 def shard_history(args):
     modname, runs, steps, seed, kw = args
     mod = drive._mod(modname)
